@@ -24,9 +24,8 @@ class curve_point:
 
 @contract("pycoin.ecdsa.Generator:Generator.inverse")
 class generator_inverse:
+    """proved: a call of Curve.inverse_mod (proved in c02_curve) with the prime group order as modulus"""
     props = ["C02"]
-    verify = False
-    assumed_reason = "modular inverse modulo the (prime) group order (Curve.inverse_mod; bounded check C02.*)"
     sig = dict(self=GEN, a=Int())
     returns = Int()
 
